@@ -58,16 +58,22 @@ Theorem C06_loop_invariant : forall orc t in_idx c script pks sigs,
 Proof. exact ms_loop_initial. Qed.
 Print Assumptions C06_loop_invariant.
 
-(** a hard failure inside the loop comes only from a signature that fails an enabled hash-type / DER
-    check or a key that fails the enabled key check; every other invalid signature just does not match *)
-Theorem C06_multisig_hard_errors : forall orc t i c script pks sigs,
+(** the multisig side of the flag table.  FULL STATEMENT WANTED: for every flag subset, exactly which
+    malformed elements of an m-of-n argument list are hard failures.  PROVED: a hard failure inside the
+    loop comes ONLY from a signature that fails an enabled hash-type / DER check or a key that fails the
+    enabled key check (soundness); together with [C06_multisig_matching] (no such element => no error and
+    the matching verdict), [C06_multisig_eval] (null dummy, null fail) and the per-element rules
+    [C06_hash_type_rule], [C06_der_check_spec], [C06_pubkey_rule].  MISSING: the exact set of positions the
+    loop examines before it stops (a malformed element it never reaches is not an error) is only given
+    by the structural loop [C06_loop_invariant], not as a closed formula. *)
+Theorem C06_flag_table_multisig_partial : forall orc t i c script pks sigs,
   ms_loop orc t i c script pks sigs (S (length pks)) (repeat None (length sigs)) (-1)
           (Z.of_nat (length pks) + 1) 0 (Z.of_nat (length sigs)) = LErr ->
   (exists raw sg hb, In raw sigs /\ split_last raw = Some (sg, hb) /\
                      (check_hash_type c (b2n hb) = false \/ check_sig_enc c sg = EncErr)) \/
   (exists pk, In pk pks /\ check_pubkey_enc c pk = false).
 Proof. exact ms_loop_err. Qed.
-Print Assumptions C06_multisig_hard_errors.
+Print Assumptions C06_flag_table_multisig_partial.
 
 (** * 2. OP_CHECKMULTISIG consumes exactly n + m + 3 items *)
 
@@ -212,12 +218,7 @@ Theorem C06_flag_table : forall orc c t i s idx pk full r sig hb up h,
 Proof. exact checksig_table. Qed.
 Print Assumptions C06_flag_table.
 
-(** the table, spelled out for the 64 subsets (decidable: computed) *)
-Definition flags_of (strictenc dersig lows nulldummy nullfail forkid : bool) : ctx :=
-  let bit (b : bool) (k : N) := if b then N.shiftl 1 k else 0%N in
-  mkCtx (normalise_flags (N.lor (bit strictenc F_STRICTENC) (N.lor (bit dersig F_DERSIG) (N.lor (bit lows F_LOWS)
-          (N.lor (bit nulldummy F_STRICTMULTISIG) (N.lor (bit nullfail F_NULLFAIL) (bit forkid F_FORKID)))))))
-        true 0 1 0 false.
+(** the table, spelled out for the 64 subsets ([flags_of]: the flag word after apply's normalisation; computed) *)
 Theorem C06_flag_table_64 : forall se de lo nd nf fk,
   let c := flags_of se de lo nd nf fk in
   hard c HashTypeUndefined = (se || fk) /\
@@ -228,7 +229,7 @@ Theorem C06_flag_table_64 : forall se de lo nd nf fk,
   hard c PubKeyShape = (se || fk) /\
   hard c VerifyFails = nf /\
   hard c Unparsable = nf.
-Proof. intros [|] [|] [|] [|] [|] [|]; vm_compute; repeat split. Qed.
+Proof. exact flag_table_64. Qed.
 Print Assumptions C06_flag_table_64.
 
 (** * 6. DER and low S *)
@@ -264,21 +265,11 @@ Print Assumptions C06_sigops_ok_mk.
 
 (** without the hypothesis the statement is false of the faithful model: a transaction whose input has
     no previous txid does not survive Tx.Clone's re-parse (log.Fatal in the Go code) *)
-Definition bad_tx : tx := mkTx 1 [mkInput [] 0 [] 0 0 None] [] 0.
-Definition any_oracle : sig_oracle := mkOracle (fun _ => true) (fun _ _ => true) (fun _ _ _ _ => Some true).
 Theorem C06_sigops_ok_unconditional_refuted : exists orc t i, ~ sigops_ok (mk_sigops orc t i).
-Proof.
-  exists any_oracle, bad_tx, 0%N. intros H.
-  destruct (H (mkCtx 0 true 0 1 0 false) (mkSt [[x02]; [x30; x01]] [] [] [] 0 0 false []) 0%nat false) as [Hp _].
-  apply Hp. vm_compute. reflexivity.
-Qed.
+Proof. exact sigops_ok_unconditional_refuted. Qed.
 Print Assumptions C06_sigops_ok_unconditional_refuted.
 
 (** * non-vacuity *)
-Definition ex_tx : tx :=
-  mkTx 1 [mkInput (repeat_byte 32 xab) 3 [x51] 4294967295 5000 (Some [x76; xa9; x88; xac]);
-          mkInput (repeat_byte 32 xcd) 0 [] 7 1 (Some [])]
-         [mkOutput 1000 [x6a]] 0.
 Example C06_tx_ctx_ok_satisfiable : tx_ctx_ok ex_tx 1.
 Proof.
   assert (Hin : forall txid vout unl sq sats scr, length txid = 32%nat -> (vout < two32)%N -> (sq < two32)%N ->
@@ -290,6 +281,14 @@ Proof.
   - constructor; [apply Hin; reflexivity|]. constructor; [apply Hin; reflexivity|constructor].
   - constructor; [split; reflexivity|constructor].
 Qed.
+
+(** the hypotheses of [C06_multisig_matching] are satisfiable: with no encoding flags, an oracle that
+    answers everything, the 2-byte signature 30 01 and any key are well encoded for input 1 of [ex_tx] *)
+Example C06_matching_hypotheses_satisfiable :
+  oracle_total any_oracle /\
+  Forall (key_well_encoded (flags_of false false false false false false)) [[x02]] /\
+  Forall (sig_well_encoded ex_tx 1 (flags_of false false false false false false) []) [[x30; x01]].
+Proof. exact matching_hypotheses_example. Qed.
 
 (** 3006020101020101 is strict DER with low S; the model accepts it under DERSIG | LOW_S *)
 Example C06_strict_der_example : strict_der_low_s [x30; x06; x02; x01; x01; x02; x01; x01].
